@@ -14,7 +14,7 @@ from aiocoap.numbers.codes import NOT_FOUND
 PROP = "C06"
 LEVEL = "model_checking"
 RULE = ("E3: BFS over all sequences to depth D of an operation alphabet (Block1 PUT/POST blocks num 0-2 x M x size 16/32 x full/"
-        "short payload from endpoints 1-2 (same IP, other port: 3) to /a, /b, /a?q=1; Block2 GETs num 0-4 x SZX 0-2; plain "
+        "short / empty / double payload from endpoints 1-2 (same IP, other port: 3) to /a, /b, /a?q=1, /a with Request-Tag, /a with Accept; Block2 GETs num 0-4 x SZX 0-2; plain "
         "requests; clock jumps 92.9 / 93.2 / 186.1 s) with dedup on (model, spool, cache, recently-accessed sets, timers)")
 ASSUMPTIONS = [
     "state lifetime bounds 93 s / 186 s = MAX_TRANSMIT_WAIT and twice that, computed from RFC 7252 defaults",
@@ -69,6 +69,22 @@ def make_world(rlen):
     return st
 
 
+def set_variant(msg, variant):
+    """The request variants that must keep transfers apart: a query, or another cache-key option (Request-Tag, Accept)."""
+    if not variant:
+        return
+    if variant == "@tag":
+        msg.opt.request_tag = [b"T"]
+    elif variant == "@acc":
+        msg.opt.accept = 0
+    else:
+        msg.opt.uri_query = [variant]
+
+
+def qtuple(variant):
+    return (variant,) if variant and not variant.startswith("@") else ()
+
+
 def payload_for(ep, num, plen):
     return bytes([(ep << 4 | num) & 0xFF]) * plen
 
@@ -98,8 +114,7 @@ def apply(st, op):
         size = 1 << (szx + 4)
         pl = payload_for(ep, num, plen)
         msg = Message(code=PUT if method == "PUT" else POST, uri_path=[path], payload=pl)
-        if query:
-            msg.opt.uri_query = [query]
+        set_variant(msg, query)
         msg.opt.block1 = (num, bool(m), szx)
         nh = len(st.handled)
         r = sw.do(msg, ep)
@@ -154,7 +169,7 @@ def apply(st, op):
                     entry[1] = now
                     exp = "2.31" if m else "done"
         if exp == "done":
-            st.m_handled.append((path, (query,) if query else (), method, st.asm[key][0]))
+            st.m_handled.append((path, qtuple(query), method, st.asm[key][0]))
         # ---- compare
         if exp == "done":
             ok = code == "2.04" and st.handled[nh:] == st.m_handled[-1:] and r.opt.block1 is not None and tuple(r.opt.block1)[:2] == (num, False)
@@ -174,8 +189,10 @@ def apply(st, op):
         if code.startswith("5."):
             viol("server-error-on-block", "never 5.xx", code, "blockwise.py:Block1Spool.feed_and_take", "5xx-b1")
     elif op[0] == "b2":
-        _, ep, num, szx = op
+        _, ep, num, szx = op[:4]
+        variant = op[4] if len(op) > 4 else None
         msg = Message(code=GET, uri_path=["a"])
+        set_variant(msg, variant)
         size = None
         if num is not None:
             msg.opt.block2 = (num, False, szx)
@@ -183,7 +200,7 @@ def apply(st, op):
         before = st.renders[0]
         r = sw.do(msg, ep)
         code = r.code.dotted
-        key = (ep, "GET", "a", None)
+        key = (ep, "GET", "a", variant)
         body = bytes(r.payload)
         b2 = None if r.opt.block2 is None else (r.opt.block2.block_number, bool(r.opt.block2.more), r.opt.block2.size_exponent)
         rendered = st.renders[0] - before
@@ -265,6 +282,12 @@ def ops_b1():
             ("b1", 1, 1, 0, 0, 16, "a", "q=1", "PUT"), ("b1", 1, 0, 1, 0, 16, "a", "q=1", "PUT"),
             ("b1", 1, 0, 1, 1, 32, "a", None, "PUT"), ("b1", 1, 1, 0, 1, 5, "a", None, "PUT"),
             ("b1", 3, 1, 0, 0, 16, "a", None, "PUT"), ("b1", 3, 0, 1, 0, 16, "a", None, "PUT"),
+            # non-final continuations whose payload is a whole multiple of the block size other than 1 (0x, 2x), and the
+            # final block that would fit behind an over-long one
+            ("b1", 1, 1, 1, 0, 32, "a", None, "PUT"), ("b1", 1, 1, 1, 0, 0, "a", None, "PUT"), ("b1", 1, 3, 0, 0, 5, "a", None, "PUT"),
+            # the same transfer under another cache-key option (Request-Tag, Accept) is another transfer
+            ("b1", 1, 0, 1, 0, 16, "a", "@tag", "PUT"), ("b1", 1, 1, 0, 0, 16, "a", "@tag", "PUT"),
+            ("b1", 1, 1, 0, 0, 16, "a", "@acc", "PUT"),
             ("t", MTW - 0.1), ("t", MTW + 0.2), ("t", 2 * MTW + 0.1)]
     return ops
 
@@ -274,7 +297,8 @@ def ops_b2():
     for num in range(0, 5):
         for szx in (0, 1, 2):
             ops.append(("b2", 1, num, szx))
-    ops += [("b2", 2, 0, 0), ("b2", 2, 1, 0), ("b2", 3, 1, 0), ("t", MTW - 0.1), ("t", MTW + 0.2), ("t", 2 * MTW + 0.1)]
+    ops += [("b2", 2, 0, 0), ("b2", 2, 1, 0), ("b2", 3, 1, 0), ("b2", 1, 0, 0, "@tag"), ("b2", 1, 1, 0, "@tag"), ("b2", 1, 1, 0, "@acc"),
+            ("t", MTW - 0.1), ("t", MTW + 0.2), ("t", 2 * MTW + 0.1)]
     return ops
 
 
